@@ -458,6 +458,12 @@ async fn run_close(case: &Value) -> Value {
             script_ok &= conn.send_unit(&hello[..hello.len() / 2]).await.is_ok();
             script_ok &= consumed(tr, hello.len() / 2, 1, Duration::from_secs(2)).await;
         }
+        "hello-without-delimiter" => {
+            // the complete <hello>...</hello>, but the stream ends where the delimiter should begin
+            let cut = hello.len() - MARKER.len();
+            script_ok &= conn.send_unit(&hello[..cut]).await.is_ok();
+            script_ok &= consumed(tr, cut, 1, Duration::from_secs(2)).await;
+        }
         _ => {
             script_ok &= conn.send_unit(&hello).await.is_ok();
             // client hello, then the pipelined requests
@@ -468,6 +474,12 @@ async fn run_close(case: &Value) -> Value {
                     let r = reply_bytes(1, "tag-0", 64, false);
                     let part = case["fraction"].as_u64().unwrap_or(2) as usize;
                     let cut = (r.len() * part / 4).clamp(1, r.len() - 1);
+                    script_ok &= conn.send_unit(&r[..cut]).await.is_ok();
+                    script_ok &= consumed(tr, hello.len() + cut, 2, Duration::from_secs(2)).await;
+                }
+                "reply-without-delimiter" => {
+                    let r = reply_bytes(1, "tag-0", 0, false);
+                    let cut = r.len() - MARKER.len();
                     script_ok &= conn.send_unit(&r[..cut]).await.is_ok();
                     script_ok &= consumed(tr, hello.len() + cut, 2, Duration::from_secs(2)).await;
                 }
@@ -534,7 +546,7 @@ async fn run_close(case: &Value) -> Value {
         Err(e) if e == "TIMEOUT" => symptoms.push("establish-hang".into()),
         Err(_) => {}
         Ok(_) => {
-            if point == "before-hello" || point == "inside-hello" {
+            if point == "before-hello" || point == "inside-hello" || point == "hello-without-delimiter" {
                 symptoms.push("established-without-hello".into());
             }
         }
@@ -980,10 +992,10 @@ pub fn run_c07(cfg: &Cfg) -> i32 {
             Tr::Tls => vec!["clean", "abrupt", "fin-only"],
             _ => vec!["clean", "abrupt"],
         };
-        for point in ["before-hello", "inside-hello", "after-hello-idle", "inside-reply", "between-request-and-reply", "after-reply", "pending-close-session"] {
+        for point in ["before-hello", "inside-hello", "hello-without-delimiter", "after-hello-idle", "inside-reply", "reply-without-delimiter", "between-request-and-reply", "after-reply", "pending-close-session"] {
             for manner in &manners {
                 let outs: Vec<usize> = match point {
-                    "before-hello" | "inside-hello" | "after-hello-idle" => vec![0],
+                    "before-hello" | "inside-hello" | "hello-without-delimiter" | "after-hello-idle" => vec![0],
                     "pending-close-session" if thorough => vec![0, 1],
                     "pending-close-session" => vec![0],
                     _ if thorough => vec![1, 3],
@@ -1080,11 +1092,31 @@ pub fn run_c12b(cfg: &Cfg) -> i32 {
             cases.push(json!({"kind": "framing", "id": id, "tr": tr.name(), "server_versions": versions}));
         }
     }
+    // "well-formed hello": a hello whose end-of-message delimiter never comes (the stream ends
+    // right where it should begin) is not a complete message, whatever its XML looks like
+    for tr in [Tr::Tls, Tr::Ssh, Tr::Cli] {
+        for manner in ["clean", "abrupt"] {
+            id += 1;
+            cases.push(json!({"kind": "close", "id": id, "tr": tr.name(), "point": "hello-without-delimiter", "manner": manner, "outstanding": 0, "fraction": 2, "server_versions": "hello without delimiter, then close"}));
+        }
+    }
     let results = run_cases(cases, 12, &[], Duration::from_secs(40));
     for cr in &results {
         let (c, r) = (&cr.case, &cr.result);
-        let key = format!("{}|{}", c["tr"], c["server_versions"]);
+        let key = format!("{}|{}|{}", c["tr"], c["server_versions"], c["manner"]);
         rep.case(Some(key.as_bytes()));
+        if c["kind"] == "close" {
+            let symptoms: Vec<String> = r["symptoms"].as_array().map(|a| a.iter().filter_map(|s| s.as_str().map(ToString::to_string)).collect()).unwrap_or_default();
+            if symptoms.iter().any(|s| s == "established-without-hello") {
+                rep.violation(&format!("establish:accepted:hello-without-delimiter:{}", c["tr"].as_str().unwrap_or("?")), "a session was reported as established although the server's hello was never terminated by the end-of-message delimiter", json!({"case": c, "result": r}));
+            } else if r["verdict"] == "held" || r["verdict"] == "violated" {
+                // (hangs and spins at this point are C07's business)
+                rep.count("unterminated_hello_not_accepted");
+            } else {
+                rep.inconclusive(&key, &format!("{}: {}", r["verdict"].as_str().unwrap_or(""), r["why"].as_str().unwrap_or("")));
+            }
+            continue;
+        }
         match r["verdict"].as_str().unwrap_or("") {
             "held" => rep.count("held"),
             "violated" => {
@@ -1123,16 +1155,30 @@ pub fn run_c18b(cfg: &Cfg) -> i32 {
             }
         }
     }
+    for tr in [Tr::Tls, Tr::Ssh, Tr::Cli] {
+        for polled in [false, true] {
+            id += 1;
+            cases.push(json!({"kind": "drop-close", "id": id, "tr": tr.name(), "polled": polled, "drop": "close-session-future", "fraction": if polled { "polled" } else { "unpolled" }}));
+        }
+    }
     let results = run_cases(cases, 12, &[], Duration::from_secs(40));
     for cr in &results {
         let (c, r) = (&cr.case, &cr.result);
         let key = format!("{}|{}|{}", c["tr"], c["drop"], c["fraction"]);
         rep.case(Some(key.as_bytes()));
+        if c["kind"] == "drop-close" {
+            // abandoning the future returned by Session::close() gives up the session object
+            // itself; C18 speaks of a session that remains: recorded, not judged (the SSH transport
+            // hangs up when the session's send half goes away, TLS and the child process do not)
+            rep.count(&format!("observed_not_judged:session-dropped-with-a-request-outstanding:{}:survivor-{}", c["tr"].as_str().unwrap_or("?"),
+                if r["verdict"] == "held" { "got-its-reply" } else if r["verdict"] == "violated" { "failed" } else { "not-exercised" }));
+            continue;
+        }
         match r["verdict"].as_str().unwrap_or("") {
             "held" => rep.count("held"),
             "violated" => {
                 let symptoms: Vec<String> = r["symptoms"].as_array().map(|a| a.iter().filter_map(|s| s.as_str().map(ToString::to_string)).collect()).unwrap_or_default();
-                rep.violation(&format!("drop-partial:{}:{}", c["tr"].as_str().unwrap_or("?"), symptoms.first().cloned().unwrap_or_default()), &format!("{symptoms:?}"), json!({"case": c, "result": r}));
+                rep.violation(&format!("{}:{}:{}", c["kind"].as_str().unwrap_or("drop-partial"), c["tr"].as_str().unwrap_or("?"), symptoms.first().cloned().unwrap_or_default()), &format!("{symptoms:?}"), json!({"case": c, "result": r}));
             }
             other => rep.inconclusive(&key, &format!("{other}: {}", r["why"].as_str().unwrap_or(""))),
         }
